@@ -92,6 +92,8 @@ func (r *Router) RestoreLastSavedState() error {
 
 func (r *Router) ServeHTTP(w http.ResponseWriter, req *http.Request) {
 	service, prefix := r.serviceForRequest(req)
+	verifEvent("routed", req, service, prefix)
+	verifYield("req:routed", req)
 	if service == nil {
 		SetErrorResponse(w, req, http.StatusNotFound, nil)
 		return
@@ -171,6 +173,7 @@ func (r *Router) RemoveService(name string) error {
 
 		service.Dispose()
 		r.services.Remove(service.name)
+		verifEvent("removed", service)
 
 		return nil
 	})
@@ -268,18 +271,23 @@ func (r *Router) deployTargetsIntoService(service *Service, targetSlot TargetSlo
 	}
 
 	lb := NewLoadBalancer(tl)
+	verifEvent("deploy-lb", service, int(targetSlot), lb)
 	err = lb.WaitUntilHealthy(deployTimeout)
+	verifEvent("deploy-waited", lb, err == nil)
+	verifYield("deploy:healthy", lb)
 	if err != nil {
 		lb.Dispose()
 		return err
 	}
 
 	replaced := service.UpdateLoadBalancer(lb, targetSlot)
+	verifYield("deploy:slot-updated", lb)
 
 	err = r.installService(service)
 	if err != nil {
 		return err
 	}
+	verifYield("deploy:installed", lb)
 
 	if replaced != nil {
 		replaced.DrainAll(drainTimeout)
@@ -294,6 +302,7 @@ func (r *Router) installService(s *Service) error {
 
 	err := r.withWriteLock(func() error {
 		conflict := r.services.CheckAvailability(s.name, s.options)
+		verifEvent("install", s, conflict == nil)
 		if conflict != nil {
 			slog.Error("Host settings conflict with another service", "service", conflict.name)
 			return ErrorHostInUse
@@ -311,6 +320,7 @@ func (r *Router) installService(s *Service) error {
 
 func (r *Router) findOrCreateService(name string, options ServiceOptions, targetOptions TargetOptions) (*Service, error) {
 	service := r.serviceForName(name)
+	verifYield("deploy:found", name)
 	if service != nil {
 		return service.CopyWithOptions(options, targetOptions)
 	}
@@ -326,11 +336,15 @@ func (r *Router) saveStateSnapshot() error {
 		}
 		return nil
 	})
+	verifEvent("snap-collect", r, services)
+	verifYield("snapshot:collected", r)
 
 	f, err := os.Create(r.statePath)
 	if err != nil {
 		return err
 	}
+	verifEvent("snap-create", r)
+	verifYield("snapshot:created", r)
 
 	err = json.NewEncoder(f).Encode(services)
 	if err != nil {
@@ -339,6 +353,8 @@ func (r *Router) saveStateSnapshot() error {
 	}
 
 	slog.Debug("Saved state", "path", r.statePath)
+	verifEvent("snap-write", r)
+	verifYield("snapshot:written", r)
 	return nil
 }
 
